@@ -186,6 +186,15 @@ def run(ctx):
         ok = enc is not None and str(_c(enc)).lower().replace("_", "-") in ("latin-1", "latin1", "iso-8859-1")
         ctx.ob("R7", "API", f, "parse_qsl(query)", ok, "query parsed as text with a single-byte codec: every percent-encoded byte value survives" if ok else
                "parse_qsl is applied without a single-byte `encoding=`: with a bytes query the result is re-encoded as ASCII, so a parameter such as ?q=caf%C3%A9 raises UnicodeEncodeError instead of yielding its bytes", c)
-    ub = [c for c in fn_calls(f.node) if dotted(c.func) in ("unquote_to_bytes", "urllib.parse.unquote_to_bytes")]
+    ub = [c for c in fn_calls(f.node) if (dotted(c.func) or "").split(".")[-1] in ("unquote_to_bytes", "unquote", "unquote_plus")]
     if not qs and not ub:
         ctx.ob("R7", "API", f, "query decoding", False, "no percent-decoding of the query found")
+    # percent-decoding happens once, in the query parser, after the target has been split: decoding earlier turns
+    # escaped delimiters (%26 %3D %23 %2B) into live ones and decodes literal percent signs twice
+    if qs:
+        ctx.ob("R7", "API", f, "percent-decoding applied once", not ub,
+               "parse_qsl is the only percent-decoder" if not ub else f"additional percent-decoding besides parse_qsl: {[src(c)[:40] for c in ub]}", (ub or qs)[0])
+    # ---- R8: every call builds fresh result objects (the header/parameter maps are mutable and callers write into
+    # them, e.g. HttpDataTransform.transform): the parser must not be wrapped by a caching decorator
+    decs = [src(d) for d in f.node.decorator_list]
+    ctx.ob("R8", "API", f, "undecorated parser", not decs, "no decorator: each parse returns new objects" if not decs else f"parser is wrapped by {decs}: results (holding mutable maps) may be shared between calls", f.node)
